@@ -43,7 +43,7 @@ C18_FEATURES = ("vars", "var-fallback", "var-undefined", "var-chain", "var-share
                 "important", "repeat-decl", "nesting", "bg-var", "keywords", "comments", "no-color-rules", "opaque-atrules",
                 "non-ascii")
 _NAMES = ("a.css", "b.css", "main.css", "style.css", "thème.css", "my style.css", "z9.css", "reset.min.css", "c_cm2.css", ".hidden.css", "a.b.c.css")
-_DIRS = ("", "", "sub/", "sub/deep/", "x.d/", "v1.css/", "pkg_cm.css/", "sub dir/")
+_DIRS = ("", "", "sub/", "sub/deep/", "x.d/", "v1.css/", "pkg_cm.css/", "sub dir/", "theme[v2]/", "a*b/", "q?/.cfg/")
 _UNSER = ("a{} }", "}", "a{color:#777} ]", "@media x{ a{color:#777} } }\n.b{color:#888}")
 _NONUTF8 = ("fffe41", "612063c3286b7d", "80", "c0af", "7b636f6c6f723a23373737ff7d")
 
@@ -207,8 +207,9 @@ def generate(rseed, tier, idx):
                     elif k == "eacces-out":
                         faults.append({"path": "tree/" + rel[:-4] + "_cm.css", "mode": "w", "n": 1, "what": "eacces"})
             tgt = "."
-            if g.random() < 0.2 and any(r.startswith("sub/") for r in tree):
-                tgt = "sub"
+            tops = sorted({r.split("/", 1)[0] for r in tree if "/" in r})
+            if g.random() < 0.3 and tops:
+                tgt = g.choice(tops)
             st = {"op": "dirrun", "target": tgt, "settings": base_settings if g.random() < 0.7 else _settings(g),
                   "order_key": o.randrange(1 << 30) if o.random() < 0.85 else None, "faults": faults}
             steps.append(st)
